@@ -7,7 +7,7 @@ In a fresh scratch worktree of /repo HEAD (outside /repo and /verif, removed aft
   1. the demonstration passes on the unmodified code,
   2. the patch applies, `go build ./...` passes, every BASELINE stable_pass test still passes,
   3. the demonstration fails with the patch,
-  4. the registered quick checks are run against /repo with the patch applied (then restored).
+  4. the quick checks are run against that worktree (VERIF_REPO) with the patch applied.
 """
 import json, os, re, shutil, subprocess, sys, argparse, time
 
@@ -82,21 +82,20 @@ def main():
         print("\n".join(log)); print("  demo output with change:", *tail, sep="\n    ")
         if not ok:
             print("NOT CONFIRMED"); sys.exit(1)
-        # run the checks against /repo
-        assert sh("git -C /repo status --porcelain")[1].strip() == "", "/repo dirty"
+        # run the checks against the scratch worktree (patch applied)
         results = {}
-        sh("git -C /repo apply %s" % patch)
-        try:
-            checks = (a.checks or a.prop).split(",")
-            for c in checks:
-                t0 = time.time()
-                rc, out = sh("./check %s quick" % c, cwd="/verif")
-                first = [l.strip() for l in out.splitlines() if "violation[" in l][:1]
-                results[c] = {"exit": rc, "caught": rc == 1 and ("VIOLATION property=%s" % c) in out, "first_violation": (first[0][:300] if first else ""), "wall_s": round(time.time() - t0, 1)}
-                print("check %s quick: exit %d %s" % (c, rc, "CAUGHT" if results[c]["caught"] else "MISSED"))
-        finally:
-            sh("git -C /repo checkout -- . && git -C /repo clean -fdq")
-            sh("git -C /verif checkout -- evidence")
+        outd = "/tmp/vseed/" + a.name + "_out"
+        os.makedirs(outd, exist_ok=True)
+        envc = dict(ENV, VERIF_REPO=wt, VERIF_OUT=outd)
+        checks = (a.checks or a.prop).split(",")
+        for c in checks:
+            t0 = time.time()
+            p = subprocess.run("./check %s quick" % c, shell=True, text=True, capture_output=True, cwd="/verif", env=envc)
+            rc, out = p.returncode, p.stdout + p.stderr
+            first = [l.strip() for l in out.splitlines() if "violation[" in l][:1]
+            results[c] = {"exit": rc, "caught": rc == 1 and ("VIOLATION property=%s" % c) in out, "first_violation": (first[0][:300] if first else ""), "wall_s": round(time.time() - t0, 1)}
+            print("check %s quick: exit %d %s" % (c, rc, "CAUGHT" if results[c]["caught"] else "MISSED"))
+        shutil.rmtree(outd, ignore_errors=True)
         dest = "/verif/seeded/" + a.name
         shutil.rmtree(dest, ignore_errors=True)
         os.makedirs(dest)
